@@ -240,6 +240,11 @@ func (c *specCtx) ident(name string) Value {
 	if k, ok := e.w.Cs.Ghosts[name]; ok {
 		return e.ghostVar(name, k)
 	}
+	if e.inline > 0 && len(e.inlFc) > 0 && e.inlFc[len(e.inlFc)-1] != nil {
+		if obj, ok := e.inlFc[len(e.inlFc)-1].locals[name]; ok {
+			return e.readVar(e.localName(obj), obj.Type())
+		}
+	}
 	if obj, ok := e.specLocals[name]; ok {
 		return e.readVar(e.localName(obj), obj.Type())
 	}
